@@ -153,6 +153,14 @@ def finish(ctx: Ctx, t0: float, level: str, explanation: str, evidence_dir: str 
         "classes_indexed": len(ctx.idx.classes),
         "root": ctx.idx.root,
     }
+    # inputs enumerated inside the instances (truth-table rows, symbolic cases, orderings ...), as recorded by the rules
+    case_keys = ("cases", "rows", "assignments_tried", "truth_assignments_simulated", "orderings", "orderings_same_file",
+                 "orderings_other_file", "namespaces_x_exits", "pairs", "pairs_evaluated", "functions_scanned", "n_cases")
+    n_cases = 0
+    for o in ctx.obligations:
+        if isinstance(o.facts, dict):
+            n_cases += sum(v for k, v in o.facts.items() if k in case_keys and isinstance(v, int) and not isinstance(v, bool))
+    coverage["abstract_cases_evaluated"] = n_cases
     if level == "proof":
         pr = [o for o in ctx.obligations if o.rule.startswith(proof_rules)] if proof_rules else ctx.obligations
         coverage["obligations"] = len(pr)
